@@ -359,7 +359,7 @@ def profile(st):
 CHECK = ArrayCheck(
     prop='C18', profile=profile,
     monitors=lambda: [ShadowMonitor()],
-    tiers={'quick': 300, 'thorough': 30_000}, ops_tiers={'quick': 20_000, 'thorough': 3_000_000},
+    tiers={'quick': 300, 'thorough': 10_000}, ops_tiers={'quick': 20_000, 'thorough': 1_000_000},
     nontrivial=lambda r: r['counters'].get('c18_insitu_deletes', 0) + r['counters'].get('c18_insitu_slice_assign', 0) > 0,
     rule=('(a) operation runs: bucket sizes 1-8, row shapes (n,2)/(n,6), with and without drop-oldest, 1-80 operations from {append, '
           'append_multiple (shorter/equal/longer than a bucket), index read/write with positive and negative indices, slice read with '
